@@ -128,6 +128,22 @@ def gen_eval(ctx):
         doc = "[ " + " ".join(xs) + " ]"
         out.append((rng.choice(["sort(@)", "sort_by(@, &@)", "max(@)", "min(@)", "sort(@) | [0]", "sort_by(@, &@)[-1]", "max_by(@, &@)", "reverse(sort(@))",
                                 "[?@ <= `0.3`] | sort(@)", "sort(@) == sort(reverse(@))"]), doc))
+    # every string function on every pair of short strings mixing 1-, 2-, 3- and 4-byte characters: byte lengths, character counts and
+    # character boundaries all disagree here, so any byte-offset arithmetic on text (slicing at len(a) - len(b), comparing lengths) shows
+    us = ["", "a", "go", "ab", "é", "éa", "aé", "日本語", "日本", "本語", "語", "😀", "a😀", "😀a", "メモ", ".txt", "日本語.txt", "ß", "ﬃ", "e\u0301", "\u0301",
+          "aaé", "éé", "😀😀", "\ufeff", "\u00a0x"]
+    for a in us:
+        for b in us:
+            d = "{ s61 " + G.enc_str(a) + " s62 " + G.enc_str(b) + " }"
+            for e in (["starts_with(a, b)", "ends_with(a, b)", "contains(a, b)"] if q else
+                      ["starts_with(a, b)", "ends_with(a, b)", "contains(a, b)", "join(a, [b, a, b])", "[a, b] | sort(@)", "max([a, b])", "a < b", "a == b",
+                       "reverse(a) == b", "length(a) > length(b)", "contains([a], b)", "join(b, [a, a])"]):
+                out.append((e, d))
+    for a in us:
+        d = "{ s61 " + G.enc_str(a) + " }"
+        for e in ["reverse(a)", "length(a)", "to_string(a)", "to_number(a)", "to_array(a)", "join(a, [a, a, a])", "sort([a, 'b', a])", "type(a)", "a.b", "a[0]", "a[::-1]",
+                  "contains(a, a)", "starts_with(a, a)", "ends_with(a, a)", "max_by([a, a], &@)", "{k: a}.k", "[?a]", "not_null(a)", "keys({k: a})", "merge({k: a}, {j: a})"]:
+            out.append((e, d))
     eg = G.ExprGen(rng, funcs=True)
     for _ in range(2000 if q else 300000):
         out.append((G.spell(rng, eg.expr()), rng.choice(big) if rng.random() < 0.2 else G.rand_doc(rng, 3)))
